@@ -2,14 +2,29 @@
   MODEL for C20: the scope-lifetime machine of an archive session.
   A program is a sequence of instructions executed by a (de)serialization call; scopes are objects
   with destructors, held in `std::optional`s and closed in LIFO order. Any step may fail (raise an
-  exception); unwinding then runs the destructors of all pending scopes. A destructor that throws
-  — during unwinding, or during a normal close, because `std::optional<T>::~optional()` is
-  noexcept — ends in `std::terminate`.
+  exception); unwinding then runs the destructors of all pending scopes. The work a destructor does
+  (`~CMsgPackReadObjectScope` / `~CMsgPackReadArrayScope`: skip what was not read; `~CCsvWriteObjectScope`:
+  `NextLine()`) may fail as well. A destructor either
+    * lets that exception escape — during unwinding, or during a normal close, because
+      `std::optional<T>::~optional()` is noexcept, this ends in `std::terminate`; or
+    * catches it (`try { … } catch (...) { GetContext().DeferError(std::current_exception()); }`): the
+      SerializationContext keeps the FIRST deferred error and `Finalize()` of the root scope — called by
+      LoadObject/SaveObject right after the object has been (de)serialized, outside any destructor —
+      rethrows it.
+  Which of the two the library's destructors do is regenerated from the source on every run
+  (`Generated/InventoryConsts.lean`, theorems in Props/C20.lean).
 -/
 namespace BSVerif.Fault
 
+/-- what the destructor of a scope does when it runs -/
+inductive Dtor where
+  | clean                 -- its work succeeds (or it has none)
+  | defers (e : Nat)      -- its work raises `e`, caught inside the destructor and deferred to `Finalize()`
+  | throws (e : Nat)      -- its work raises `e` and the exception leaves the destructor
+  deriving Repr, DecidableEq
+
 inductive Instr where
-  | openScope (dtorThrows : Bool)     -- whether this scope's destructor will throw when it runs
+  | openScope (d : Dtor)              -- what this scope's destructor will do when it runs
   | step (fails : Option Nat)         -- `some e` = this step raises exception `e`
   | closeScope
   deriving Repr, DecidableEq
@@ -20,20 +35,43 @@ inductive Outcome where
   | terminate
   deriving Repr, DecidableEq
 
-/-- run the destructors of all pending scopes (innermost first) -/
-def unwind : List Bool → Bool      -- returns true when some destructor throws
-  | [] => false
-  | d :: rest => d || unwind rest
+/-- `SerializationContext::DeferError`: only the first error is kept (later ones are its consequences) -/
+def deferError (dfr : Option Nat) (e : Nat) : Option Nat :=
+  match dfr with
+  | some x => some x
+  | none => some e
 
-def exec : List Instr → List Bool → Outcome
-  | [], stack => if unwind stack then .terminate else .completed
-  | .openScope d :: is, stack => exec is (d :: stack)
-  | .step none :: is, stack => exec is stack
-  | .step (some e) :: _, stack => if unwind stack then .terminate else .exception e
-  | .closeScope :: is, stack =>
+/-- run the destructors of all pending scopes (innermost first): `none` = an exception left a destructor,
+    `some dfr` = the deferred-error slot afterwards -/
+def unwind : List Dtor → Option Nat → Option (Option Nat)
+  | [], dfr => some dfr
+  | .clean :: rest, dfr => unwind rest dfr
+  | .defers e :: rest, dfr => unwind rest (deferError dfr e)
+  | .throws _ :: _, _ => none
+
+/-- `stack`: pending scopes, innermost first; `dfr`: `SerializationContext::mDeferredError` -/
+def exec : List Instr → List Dtor → Option Nat → Outcome
+  | [], stack, dfr =>
+    -- the object has been (de)serialized: `archive.Finalize()` rethrows the deferred error, then (normally or while
+    -- that exception unwinds) the scopes that are still alive — the root scope — are destroyed; what a destructor
+    -- defers now is lost with the context
+    match unwind stack dfr, dfr with
+    | none, _ => .terminate
+    | some _, some e => .exception e
+    | some _, none => .completed
+  | .openScope d :: is, stack, dfr => exec is (d :: stack) dfr
+  | .step none :: is, stack, dfr => exec is stack dfr
+  | .step (some e) :: _, stack, dfr =>
+    -- stack unwinding; `Finalize()` is not reached, so the caller sees the exception of the failing step
+    match unwind stack dfr with
+    | none => .terminate
+    | some _ => .exception e
+  | .closeScope :: is, stack, dfr =>
     match stack with
-    | [] => exec is []
-    | d :: rest => if d then .terminate else exec is rest
+    | [] => exec is [] dfr
+    | .clean :: rest => exec is rest dfr
+    | .defers e :: rest => exec is rest (deferError dfr e)
+    | .throws _ :: _ => .terminate
 
 /-- first failing step of a program -/
 def firstFailure : List Instr → Option Nat
@@ -41,6 +79,21 @@ def firstFailure : List Instr → Option Nat
   | .step (some e) :: _ => some e
   | _ :: is => firstFailure is
 
-def noThrowingDtor (prog : List Instr) : Prop := ∀ d, Instr.openScope d ∈ prog → d = false
+def Dtor.escapes : Dtor → Bool
+  | .throws _ => true
+  | _ => false
+
+/-- no destructor of the program lets an exception escape (discharged for the library by
+    `C20.dtors_cannot_let_exceptions_escape` over the regenerated inventory) -/
+def noEscapingDtor (prog : List Instr) : Prop := ∀ d, Instr.openScope d ∈ prog → d.escapes = false
+
+/-- every scope whose destructor has fallible work is destroyed before `Finalize()` runs: in the library such scopes
+    are locals of the functions called by `KeyValueProxy::SplitAndSerialize`, which returns before
+    `archive.Finalize()`; only the root scope (destructor: `delete` of the reader/writer) is still alive -/
+def endsClean : List Instr → List Dtor → Bool
+  | [], stack => stack.all (· == .clean)
+  | .openScope d :: is, stack => endsClean is (d :: stack)
+  | .step _ :: is, stack => endsClean is stack
+  | .closeScope :: is, stack => endsClean is stack.tail
 
 end BSVerif.Fault
